@@ -52,6 +52,7 @@ class CalibrationMeasurementItem(EFLRItem, DimensionedItem):
     def _run_checks_and_set_defaults(self) -> None:
         """Check that the number of max/std deviations, standards, and tolerances is equal."""
 
+        self._forget_dimension_from_values()
         self._check_axis_vs_dimension()
 
         controlled_attrs = (self.maximum_deviation, self.standard_deviation, self.standard,
